@@ -8,7 +8,7 @@ use refimpl::wire::{self, DataBody, DemandActive, FpUpdate, Rect};
 use serde::{Deserialize, Serialize};
 
 pub const LEVEL: &str = "exploration";
-pub const RULE: &str = "case = history over the 11-letter alphabet of server messages {demand-active, synchronize, control-cooperate, control-granted, control-other, font-map, set-error-info, unknown data PDU, deactivate-all, fast-path bitmap, fast-path other}, one PDU per frame, on a fresh connected client; after every step an input attempt (write pointer, try_write key). exhaustive section enumerates every history up to length 5 (quick) / 6 (thorough); random section histories up to length 60. Oracle = reference automaton written from the property: Await(DemandActive) -demand-active-> emits exactly [confirm-active, synchronize, cooperate, request-control, font-list] with that share id -> Await(Sync) -> Await(Cooperate) -> Await(Granted) -> Await(FontMap) -> Active -deactivate-all-> Await(DemandActive); any other letter emits nothing and does not advance; write is Ok with exactly one input PDU iff Active, otherwise Err (try_write Ok) with zero bytes; bitmap callbacks iff Active. Where the property is silent (deactivate-all during the handshake) both 'stay' and 'restart' are allowed. Non-trivial = history containing a complete activation or an input attempt refused after one; distinct by hash of the history.";
+pub const RULE: &str = "case = history over the 11-letter alphabet of server messages {demand-active, synchronize, control-cooperate, control-granted, control-other, font-map, set-error-info, unknown data PDU, deactivate-all, fast-path bitmap, fast-path other}, one PDU per frame (plus, while the client is active, batches of several slow-path PDUs in one MCS frame: generated joins and the list of every 2- and 3-letter batch, each followed by a bitmap and a demand-active probe), on a fresh connected client; after every step an input attempt (write pointer, try_write key). exhaustive section enumerates every history up to length 5 (quick) / 6 (thorough); random section histories up to length 60. Oracle = reference automaton written from the property: Await(DemandActive) -demand-active-> emits exactly [confirm-active, synchronize, cooperate, request-control, font-list] with that share id -> Await(Sync) -> Await(Cooperate) -> Await(Granted) -> Await(FontMap) -> Active -deactivate-all-> Await(DemandActive); any other letter emits nothing and does not advance; write is Ok with exactly one input PDU iff Active, otherwise Err (try_write Ok) with zero bytes; bitmap callbacks iff Active. Where the property is silent (deactivate-all during the handshake) both 'stay' and 'restart' are allowed. Non-trivial = history containing a complete activation or an input attempt refused after one; distinct by hash of the history.";
 
 #[derive(Serialize, Deserialize, Hash, Clone, Copy, Debug, PartialEq, Eq)]
 pub enum Letter {
@@ -30,6 +30,14 @@ pub const ALPHABET: [Letter; 11] = [Letter::DemandActive, Letter::Synchronize, L
 #[derive(Serialize, Deserialize, Hash, Clone, Debug)]
 pub struct Case {
     pub history: Vec<Letter>,
+    /// joins[i]: letter i travels in the same slow-path frame as letter i-1 (honoured only where the
+    /// batch semantics follow from the property: model exactly Active, slow-path letters, no demand-active)
+    #[serde(default)]
+    pub joins: Vec<bool>,
+}
+
+fn batchable(l: Letter) -> bool {
+    !matches!(l, Letter::DemandActive | Letter::FpBitmap | Letter::FpOther)
 }
 
 #[derive(Clone, Copy, PartialEq, Eq, Debug)]
@@ -76,9 +84,43 @@ pub fn run(c: &Case) -> Outcome {
     let mut seen_events = h.borrow().server.events.len();
     let mut completed_activation = false;
     let mut refused_after_activation = false;
-    for (i, l) in c.history.iter().enumerate() {
+    let mut batched_frames = 0usize;
+    let mut idx = 0usize;
+    while idx < c.history.len() {
+        let i = idx;
+        let l = &c.history[i];
+        idx += 1;
+        // a batch: several share PDUs in one MCS frame while the client is (certainly) active
+        let mut group: Vec<Letter> = vec![*l];
+        if states == vec![St::Active] && batchable(*l) {
+            while idx < c.history.len() && c.joins.get(idx).copied().unwrap_or(false) && batchable(c.history[idx]) {
+                group.push(c.history[idx]);
+                idx += 1;
+            }
+        }
+        let last = idx - 1;
         // build and deliver the server PDU
-        let frame = {
+        let frame = if group.len() > 1 {
+            batched_frames += 1;
+            let s = h.borrow();
+            let su = 1002u16;
+            let mut all = refimpl::rd::Built::new();
+            for (k, g) in group.iter().enumerate() {
+                let one = match g {
+                    Letter::Synchronize => wire::synchronize(current_share, su, 1004),
+                    Letter::Cooperate => wire::control(current_share, su, 4, 0, 0),
+                    Letter::Granted => wire::control(current_share, su, 2, 1004, 0x03EA),
+                    Letter::ControlOther => wire::control(current_share, su, if (i + k) % 2 == 0 { 3 } else { 1 }, 0, 0),
+                    Letter::FontMap => wire::font_map(current_share, su),
+                    Letter::SetErrorInfo => wire::set_error_info(current_share, su, 0),
+                    Letter::UnknownData => wire::other_data_pdu(current_share, su, 0x26, &[0, 0, 0, 0]),
+                    Letter::DeactivateAll => wire::deactivate_all(current_share, su),
+                    _ => unreachable!(),
+                };
+                all.nest(&format!("pdu{}", k), &one);
+            }
+            s.server.wrap(&all)
+        } else {
             let mut s = h.borrow_mut();
             let su = 1002u16;
             match l {
@@ -101,6 +143,11 @@ pub fn run(c: &Case) -> Outcome {
                 Letter::FpOther => wire::fast_path_pdu(&[FpUpdate::PointerNull, FpUpdate::Synchronize], 0, false),
             }
         };
+        // in the Active state every letter of a batch except deactivate-all is a no-op, and after a
+        // deactivate-all (state Demand) every batchable letter is a no-op too: the batch as a whole
+        // acts like a single deactivate-all if it contains one, and like its first letter otherwise
+        let l = &if group.len() > 1 && group.contains(&Letter::DeactivateAll) { Letter::DeactivateAll } else { *l };
+        let i = last;
         h.borrow_mut().push(&frame.bytes);
         let mut bitmaps = 0usize;
         let (r, _) = call(|| conn.client.read(|e| if let RdpEvent::Bitmap(_) = e { bitmaps += 1 }));
@@ -246,6 +293,9 @@ pub fn run(c: &Case) -> Outcome {
     if refused_after_activation {
         out.label("refused-after-activation");
     }
+    if batched_frames > 0 {
+        out.label("batched-frame");
+    }
     out
 }
 
@@ -265,7 +315,7 @@ fn all_histories(maxlen: usize, part: usize, parts: usize) -> impl Iterator<Item
             h.push(ALPHABET[k % 11]);
             k /= 11;
         }
-        Case { history: h }
+        Case { history: h, joins: Vec::new() }
     })
 }
 
@@ -275,7 +325,10 @@ pub fn decode(s: &mut Src) -> Case {
     let script = [Letter::DemandActive, Letter::Synchronize, Letter::Cooperate, Letter::Granted, Letter::FontMap, Letter::FpBitmap, Letter::DeactivateAll];
     let mut pos = 0usize;
     let mut history = Vec::new();
+    let mut joins = Vec::new();
+    let batchy = s.chance(128);
     for _ in 0..n {
+        joins.push(batchy && s.chance(100));
         if s.chance(150) {
             history.push(script[pos % script.len()]);
             pos += 1;
@@ -283,11 +336,11 @@ pub fn decode(s: &mut Src) -> Case {
             history.push(s.pick(&ALPHABET));
         }
     }
-    Case { history }
+    Case { history, joins }
 }
 
 pub fn check(rep: &Report) {
-    rep.assume("one share PDU per MCS frame (the property's alphabet); several PDUs batched into one frame are outside the asserted domain");
+    rep.assume("several share PDUs batched into one MCS frame are asserted only while the client is active and without a demand-active in the batch (there the property determines the outcome: the batch deactivates iff it contains a deactivate-all); elsewhere one PDU per frame");
     rep.assume("the Ok/Err result of read() for an unexpected letter is not asserted");
     let maxlen = match rep.tier {
         Tier::Quick => 5,
@@ -297,4 +350,31 @@ pub fn check(rep: &Report) {
     rep.random("histories-random", rep.tier.n(20_000, 1_000_000), 80, decode, run);
     rep.require("histories-random", "complete-activation", 1000);
     rep.require("histories-random", "refused-after-activation", 500);
+    rep.require("histories-random", "batched-frame", 500);
+    // every batch of two or three slow-path letters delivered to an active client, followed by bitmap / demand-active probes
+    let mut b = Vec::new();
+    let slow: Vec<Letter> = ALPHABET.iter().copied().filter(|l| batchable(*l)).collect();
+    let prefix = [Letter::DemandActive, Letter::Synchronize, Letter::Cooperate, Letter::Granted, Letter::FontMap];
+    for x in &slow {
+        for y in &slow {
+            for z in slow.iter().map(|z| Some(*z)).chain([None]) {
+                for tail in [[Letter::FpBitmap, Letter::DemandActive], [Letter::DemandActive, Letter::FpBitmap]] {
+                    let mut history = prefix.to_vec();
+                    let mut joins = vec![false; 5];
+                    history.push(*x);
+                    joins.push(false);
+                    history.push(*y);
+                    joins.push(true);
+                    if let Some(z) = z {
+                        history.push(z);
+                        joins.push(true);
+                    }
+                    history.extend(tail);
+                    joins.extend([false, false]);
+                    b.push(Case { history, joins });
+                }
+            }
+        }
+    }
+    rep.list("batched-frames", b, run);
 }
